@@ -120,7 +120,7 @@ CHECKS = {
              'classes, 1-3 from at-maximum / one-below-maximum vectors), states merged by (items, hidden size '
              'counter); per transition the result is compared with a plain list and the bounds, refused edits must '
              'leave the state untouched and use a data-length error; per state compose/prefix/round-trip.'
-             ' Constructor aliasing (vector built from a list / from a vector, every event on either side); vectors with a 2^24-1 maximum approached with one stretched item and the smallest encodable item. Events a plain list refuses (extended slice of another length, positions out of range) must be refused and leave items and size counter unchanged.',
+             ' Constructor aliasing (vector built from a list / from a vector, every event on either side); vectors with a 2^24-1 maximum approached with one stretched item and the smallest encodable item. New items given as a one-shot iterator, a generator or a tuple (slice assignment, extend, +=). Events a plain list refuses (extended slice of another length, positions out of range) must be refused and leave items and size counter unchanged.',
         design='§5 C12'),
     'C13': dict(
         technique='explicit-state exploration of observer histories, buffer-event histories and '
